@@ -87,7 +87,7 @@ fn run_case(_kind: &str, idx: u64, rng: &mut Rng, mon: &mut Mon, _tier: Tier) {
     let mut to = [0.0; 6];
     let mut classes = [0usize; 6];
     for j in 0..6 {
-        let cls = *rng.pick(&[0, 0, 0, 1, 1, 2, 3, 4, 5, 5, 6, 7, 10]);
+        let cls = *rng.pick(&[0, 0, 0, 1, 1, 2, 3, 4, 5, 5, 6, 7, 10, 11, 12]);
         classes[j] = cls;
         let (f, t) = limit_pair(rng, cls, anchor[j]);
         from[j] = f;
@@ -119,7 +119,8 @@ fn run_case(_kind: &str, idx: u64, rng: &mut Rng, mon: &mut Mon, _tier: Tier) {
     // 3. constraints() of the stack are those of the wrapped robot
     match (limited.constraints(), free.constraints()) {
         (Some(c), None) => {
-            if c.from != from || c.to != to || c.sorting_weight.to_bits() != w.to_bits() || c.centers != cons.centers {
+            // (the centre of a range with an infinite bound is NaN or infinite: compared bit for bit)
+            if c.from != from || c.to != to || c.sorting_weight.to_bits() != w.to_bits() || (0..6).any(|j| c.centers[j].to_bits() != cons.centers[j].to_bits()) {
                 mon.violation(&format!("constraints-not-delegated:{}", sname), "constraints() reported by the stack differ from the wrapped robot's", detail("constraints()", json!({"reported_from": jf(&c.from), "reported_to": jf(&c.to)})));
             } else {
                 mon.held();
